@@ -50,7 +50,7 @@ for prop in props:
     viol = [l for l in p.stdout.splitlines() if l.startswith("VIOLATION")]
     meta["checks"][prop] = {"exit": p.returncode, "detected": p.returncode == 1 and bool(viol), "wall_s": round(time.time() - t1),
                             "report": (p.stdout.split("VIOLATION", 1)[1][:400] if viol else p.stdout[-200:])}
-dst = os.path.join(VERIF, "seeded", name)
+dst = os.path.join(VERIF, "seeded", os.environ.get("SEED_NAME", name))
 os.makedirs(dst, exist_ok=True)
 for f in ("patch.diff", "demo.py", "notes.md"):
     if os.path.exists(os.path.join(src, f)):
